@@ -151,4 +151,11 @@ theorem make504_fields : Header.values make504.header sStatusHeader = [CacheStat
 example : firstListMember [str% "100, 5"] = (str% "100") ∧ firstListMember [[], str% " 50 , 1"] = (str% "50") ∧
     firstListMember [str% ", 7"] = (str% "7") ∧ firstListMember [str% "junk, 5"] = (str% "junk") ∧ firstListMember [] = [] := by decide
 
+/-- The Age value is printed from a 64-bit integer (regenerated from internal/helpers.go SetAgeHeader). The model
+    prints an unbounded integer (`intToStr`); the code's `strconv.Itoa(int(seconds))` is 32 bits wide on 32-bit
+    platforms, where a stored `Age: 2147483648` (what RFC 9111 §1.2.2 tells an overflowed cache to send) came back
+    as `Age: -2147483648` on every HIT. The checks run on a 64-bit platform and cannot observe that; this table is
+    what keeps the repair in place. -/
+theorem age_is_printed_from_64_bits : Generated.ageFormat = "strconv.FormatInt/int64" := by decide
+
 end Httpcache.C11
